@@ -38,6 +38,25 @@ def _resolve(node, ns):
     raise KeyError(ast.dump(node)[:60])
 
 
+def _uses_list_subclass_alias(classes):
+    import typing
+
+    def bad(t):
+        o = typing.get_origin(t)
+        if isinstance(o, type) and issubclass(o, list) and o is not list:
+            return True
+        return any(bad(a) for a in typing.get_args(t))
+
+    for c in classes:
+        try:
+            hints = typing.get_type_hints(c.__init__, globalns=vars(sys.modules[c.__module__]), include_extras=True)
+        except Exception:
+            continue
+        if any(bad(t) for n, t in hints.items() if n != "return"):
+            return True
+    return False
+
+
 def discover(roots=("examples", "tests", "geml"), limit=None):
     found, skipped = [], []
     for root in roots:
@@ -78,6 +97,11 @@ def discover(roots=("examples", "tests", "geml"), limit=None):
                         classes = _resolve(c.args[0], vars(mod))
                         start = _resolve(c.args[1], vars(mod))
                         if isinstance(classes, list) and all(isinstance(x, type) for x in classes) and isinstance(start, type):
+                            if _uses_list_subclass_alias(classes + [start]):
+                                # GengyList[T] as a field annotation is not a list type for the library
+                                # (is_generic_list requires origin list; generation asserts on it)
+                                skipped.append((f"{rel}#{k}", "field annotated with a list-subclass alias (GengyList[T]): not a supported field form"))
+                                continue
                             found.append((f"{rel}#{k}", classes, start))
                     except Exception as e:
                         skipped.append((f"{rel}#{k}", "unresolvable: " + str(e)[:60]))
